@@ -2,6 +2,7 @@ package streams
 
 import (
 	"encoding/json"
+	"math"
 	"os"
 	"strconv"
 	"strings"
@@ -65,8 +66,31 @@ func (g *sessGen) id(docs bsonkit.List) interface{} {
 	return g.r.ID()
 }
 
+// sessQuietNaN replaces every NaN by the canonical quiet NaN. What arithmetic does to a NaN
+// payload is hardware-defined; the Apply model always yields the canonical NaN, the hardware
+// keeps the payload, and `modified` is decided by bitwise document equality — so `$inc` on a
+// stored payload-NaN counts as a modification in the model only (MODEL_BUGS.md #2; not a
+// matter of the session layer).
+func sessQuietNaN(v interface{}) interface{} {
+	switch x := v.(type) {
+	case float64:
+		if math.IsNaN(x) {
+			return math.Float64frombits(0x7ff8000000000000)
+		}
+	case bson.D:
+		for i := range x {
+			x[i].Value = sessQuietNaN(x[i].Value)
+		}
+	case bson.A:
+		for i := range x {
+			x[i] = sessQuietNaN(x[i])
+		}
+	}
+	return v
+}
+
 func (g *sessGen) doc() bson.D {
-	d := g.r.Doc(1, false, false)
+	d := sessQuietNaN(g.r.Doc(1, false, false)).(bson.D)
 	if g.r.P(94) {
 		d = append(bson.D{{Key: "_id", Value: g.r.ID()}}, d...)
 	}
@@ -87,7 +111,7 @@ func (g *sessGen) filter(docs bsonkit.List) bson.D {
 	case n < 88:
 		return bson.D{{Key: g.key(), Value: bson.D{{Key: []string{"$gt", "$lte", "$ne", "$exists"}[r.N(4)], Value: int32(r.N(3))}}}}
 	default:
-		return Filter(r, 1, false)
+		return sessQuietNaN(Filter(r, 1, false)).(bson.D)
 	}
 }
 
@@ -102,7 +126,9 @@ func sessStripCurrentDate(u bson.D) bson.D {
 	return out
 }
 
-func (g *sessGen) update() bson.D {
+func (g *sessGen) update() bson.D { return sessQuietNaN(g.update0()).(bson.D) }
+
+func (g *sessGen) update0() bson.D {
 	r := g.r
 	k := g.key()
 	switch n := r.N(100); {
@@ -188,7 +214,7 @@ func (g *sessGen) call(write, allowDirect bool, cat *lungo.Catalog) *sessCall {
 	case n < 69:
 		c.M = "replaceOne"
 		c.Q, c.Upsert = g.filter(docs), r.P(25)
-		c.Repl = r.Doc(1, false, false)
+		c.Repl = sessQuietNaN(r.Doc(1, false, false)).(bson.D)
 		if r.P(4) && (sessPreValidation || g.m.holder() < 0) {
 			// rejected by validateReplacement before Begin. While a transaction is open the session
 			// model answers `blocked` instead of `err` (MODEL_BUGS.md #1), so that combination is
